@@ -1,7 +1,8 @@
 """Shared driver of the C04 and C05 checks (one traversal, two emphases).
 
 quick     BFS from the empty circuit: depth 3 on (2,2) with the lean
-          alphabet, depth 2 on (2,3) (full alphabet) and (2,2,2) (lean).
+          alphabet, depth 2 on (2,3) (full alphabet), (2,2,2) and (3,2,2)
+          (lean).  Completes in ~30 s on 16 idle cores.
 thorough  BFS depth 3 on (2,2), (2,3) (full) and (2,2,2), (3,2,2) (lean);
           deviation-bounded long histories on 5 qubits and on 6 mixed-radix
           qudits (one position of a 26-28 call brick-work script replaced by
@@ -23,13 +24,12 @@ from vf.common import Ctx
 BUDGET = {'quick': 66.0, 'thorough': 1560.0}
 BOUND = {
     'quick': (
-        'all call histories of length <= 2 on radixes (2,3) [full alphabet] '
-        'and (2,2,2) [lean alphabet], and of length <= 3 on (2,2) [lean '
-        'alphabet], states merged by canonical key; measured 179,338 '
-        'transitions / 50,241 states before and ~140,000 transitions after '
-        'the C04/C05 repairs, 2-3.5 ms CPU per transition, i.e. ~400-600 '
-        'CPU-s or 35-50 s on 16 idle cores; exhaustive is true only if no '
-        'time cap was hit'),
+        'all call histories of length <= 2 on radixes (2,3) [full alphabet], '
+        '(2,2,2) and (3,2,2) [lean alphabet], and of length <= 3 on (2,2) '
+        '[lean alphabet], states merged by canonical key; measured on 16 '
+        'idle cores: ~187,000 transitions / ~52,000 states in ~30 s wall '
+        '(~320 CPU-s) before the C04/C05 repairs, ~150,000 transitions '
+        'after; exhaustive is true only if no time cap was hit'),
     'thorough': (
         'histories of length <= 3 on (2,2), (2,3) [full] and (2,2,2), '
         '(3,2,2) [lean]; every single-position deviation of a 28-call '
@@ -69,7 +69,7 @@ def plan(tier: str) -> list[dict]:
     if tier == 'quick':
         return [{'kind': 'bfs', 'share': 1.0, 'parts': [
             _bfs_part((2, 3), False, 2), _bfs_part((2, 2, 2), True, 2),
-            _bfs_part((2, 2), True, 3)]}]
+            _bfs_part((3, 2, 2), True, 2), _bfs_part((2, 2), True, 3)]}]
     a, b = (2, 2, 2, 2, 2), (2, 3, 2, 2, 3, 2)
     return [
         {'kind': 'bfs', 'share': 0.55, 'parts': [
